@@ -8,13 +8,13 @@ W = core.make_world(repo)
 only = set(sys.argv[1:]) or None
 t0=time.time()
 for v in c01_simplifier.variants(W, only):
-    r = run_variant(repo, W, v)
+    r = run_variant(repo, W, v, deadline_s=120)
     st = {}
     for o in r['obligations']:
         st[o['status']] = st.get(o['status'],0)+1
     print(v.name, 'paths', r['paths'], st, 'aborted', r['aborted'], 'unsupported', r['unsupported'], r['seconds'])
     for o in r['obligations']:
         if o['status']!='proved':
-            print('   ', o['name'], o['status'], o['extra'], json.dumps(o['model'])[:600] if o['model'] else '')
-            print('       pc:', o['path'][:12])
+            print('   ', o['name'], o['status'], o.get('outcome'), json.dumps(o.get('model'))[:500])
+            print('       pc:', [c[:80] for c in (o.get('pc') or [])][-8:])
 print(time.time()-t0)
